@@ -384,6 +384,18 @@ func c05r4(c *core.Ctx) {
 							}
 						}
 					}
+					// n == 0 for the count of the failed length read: nothing of a next frame was consumed
+					if failed && (bin.Op == token.EQL || bin.Op == token.NEQ) {
+						for _, pr := range [][2]ssa.Value{{bin.X, bin.Y}, {bin.Y, bin.X}} {
+							if z, isK := core.ConstInt(pr[1]); isK && z == 0 {
+								if en, isE := pr[0].(*ssa.Extract); isE && en.Index == 0 && fm.length != nil && en.Tuple == ssa.Value(fm.length.call) {
+									if (bin.Op == token.EQL && tookTrue) || (bin.Op == token.NEQ && !tookTrue) {
+										eofOnLength = true
+									}
+								}
+							}
+						}
+					}
 					// err == io.EOF on the length read
 					if failed {
 						for _, side := range []ssa.Value{bin.X, bin.Y} {
@@ -465,8 +477,13 @@ func c05r4(c *core.Ctx) {
 			})
 		})
 		good, n := true, 0
+		isDecryptErr := func(v ssa.Value) bool {
+			return core.AnySource(v, func(sv ssa.Value) bool {
+				return core.CallResult(sv, 1, func(i ssa.Instruction) bool { return i == s }) != nil
+			})
+		}
 		core.EnumPaths(dr, 2, 20000, func(pa core.Path) {
-			if !pathEstablishes(pa, failFact) {
+			if !pathEstablishes(pa, failFact) && !pathTakesNonNilEdge(pa, isDecryptErr) {
 				return
 			}
 			n++
@@ -493,7 +510,7 @@ func c05r4(c *core.Ctx) {
 		reported, m := true, 0
 		var witness core.Path
 		core.EnumPaths(dr, 2, 20000, func(pa core.Path) {
-			if !pathEstablishes(pa, failFact) {
+			if !pathEstablishes(pa, failFact) && !pathTakesNonNilEdge(pa, isDecryptErr) {
 				return
 			}
 			ret := pa.Returns()
@@ -520,6 +537,10 @@ func c05r4(c *core.Ctx) {
 		}
 	}
 	authFailureFinal(c, dec)
+	frameAtATime(c)
+	// observed at Decrypt itself (C05 names both observation points): handed a stream that fails between two frames of a message,
+	// Decrypt drops the frames it has already authenticated and counted, and stays usable — the next call releases the frames that follow
+	decryptDropsPlaintext(c, "(*secureSession).Decrypt/stream-error-drops-authenticated-frames", true)
 }
 
 // authFailureFinal: a frame that fails authentication ends the stream for the session object itself. The frame counter has moved
